@@ -184,8 +184,12 @@ func (c *backupClient) PostAssign(e *Engine, st *State, lhs, rhs []ast.Expr, _ a
 	if id, ok := lhs[0].(*ast.Ident); ok && id.Name != "_" {
 		if k := e.Canon(id); k.OK {
 			st = st.WithExt("lastnextval:"+rk, k.Key)
-			if c.tokenT != nil && len(e.Frames()) == 0 && st.Ext("iterfirst") == "" {
-				st = st.WithExt("iterfirst", k.Key) // the character this iteration of the scan loop dispatches on
+			if c.tokenT != nil && len(e.Frames()) == 0 {
+				if st.Ext("iterfirst") == "" {
+					st = st.WithExt("iterfirst", k.Key) // the character this iteration of the scan loop dispatches on
+				} else if st.Ext("itersecond") == "" {
+					st = st.WithExt("itersecond", k.Key) // the look-ahead after it
+				}
 			}
 		}
 	}
@@ -198,7 +202,7 @@ func (c *backupClient) LoopHead(e *Engine, st *State, loop ast.Stmt) *State {
 	if c.tokenT == nil || !c.isScanLoop(e, loop) {
 		return nil
 	}
-	return st.WithExt("iterfirst", "").WithExt("tok:emitted", "")
+	return st.WithExt("iterfirst", "").WithExt("itersecond", "").WithExt("iter:comment", "").WithExt("tok:emitted", "")
 }
 
 func (c *backupClient) isScanLoop(e *Engine, loop ast.Stmt) bool {
@@ -280,13 +284,8 @@ func (c *backupClient) LoopBack(e *Engine, st *State, loop ast.Stmt) {
 	}
 	key := fmt.Sprintf("%s every path for %q appends a token", c.fn, ch)
 	emitted := st.Ext("tok:emitted") == "1"
-	if ch == "/" && !emitted {
-		// `//` comments: the second character is known to be '/'
-		if vk := st.Ext("lastnextval:" + c.scanRecv(st)); vk != "" {
-			if g := st.GetVar(vk); g != nil && g.HasEq && g.Eq == runeKey("/") {
-				return
-			}
-		}
+	if ch == "/" && !emitted && st.Ext("iter:comment") == "1" {
+		return // a `//` comment: the look-ahead was known to be a second slash on this path
 	}
 	e.Site("C09/tables", key, loop, emitted, "an iteration that read this character ends with a token appended")
 	if !emitted {
@@ -469,6 +468,15 @@ func snapFact(st *State, k string) *Fact {
 
 // remember the ok variable across prev() so that the table rule can still see it
 func (c *backupClient) Stmt(e *Engine, st *State, s ast.Stmt) *State {
+	if k2 := st.Ext("itersecond"); k2 != "" && st.Ext("iter:comment") != "1" {
+		if k1 := st.Ext("iterfirst"); k1 != "" {
+			f1, f2 := st.GetVar(k1), st.GetVar(k2)
+			// the look-ahead is known to be '/' (for a scanner that reuses one variable, the first read is then gone)
+			if f2 != nil && f2.HasEq && f2.Eq == runeKey("/") && (k1 == k2 || (f1 != nil && f1.HasEq && f1.Eq == runeKey("/"))) {
+				st = st.WithExt("iter:comment", "1")
+			}
+		}
+	}
 	for k, v := range st.ext {
 		if strings.HasPrefix(k, "lastnext:") && !strings.HasPrefix(v, "after:") && v != "ignored" {
 			rk := strings.TrimPrefix(k, "lastnext:")
@@ -698,9 +706,9 @@ func ruleC09Dispatch(p *Program, r *Run, sites []tokenSite) {
 		for _, s := range cc.Body {
 			ast.Inspect(s, func(m ast.Node) bool {
 				if call, ok := m.(*ast.CallExpr); ok {
-					if fnc := Callee(info, call); fnc != nil && fnc.Type().(*types.Signature).Recv() != nil && fnc.Name() != "prev" && fnc.Name() != "next" {
-						if _, want := wantClass[fnc.Name()]; want {
-							callee = fnc.Name()
+					if fnc := Callee(info, call); fnc != nil && fnc.Type().(*types.Signature).Recv() != nil && fnName(fnc) != "prev" && fnName(fnc) != "next" {
+						if _, want := wantClass[fnName(fnc)]; want {
+							callee = fnName(fnc)
 						}
 					}
 				}
@@ -1263,7 +1271,7 @@ func ruleC09Spans(p *Program, r *Run) {
 		return false
 	}
 	for _, fd := range AllFuncs(pkg) {
-		if !strings.HasSuffix(p.Fset.Position(fd.Pos()).Filename, "lex.go") {
+		if !p.isLexerFunc(fd) {
 			continue
 		}
 		fd := fd
@@ -1356,7 +1364,7 @@ func ruleC09Runes(p *Program, r *Run) {
 	info := pkg.TypesInfo
 	n := 0
 	for _, fd := range AllFuncs(pkg) {
-		if !strings.HasSuffix(p.Fset.Position(fd.Pos()).Filename, "lex.go") {
+		if !p.isLexerFunc(fd) {
 			continue
 		}
 		fn := FuncName(pkg, fd)
@@ -1463,7 +1471,7 @@ func ruleC09Lookahead(p *Program, r *Run) {
 			for _, s := range ifs.Body.List {
 				if es, ok := s.(*ast.ExprStmt); ok {
 					if call, ok := es.X.(*ast.CallExpr); ok {
-						if f := Callee(info, call); f != nil && f.Name() == "setPos" {
+						if f := Callee(info, call); f != nil && fnName(f) == "setPos" {
 							if k, ok := c.entryRelative(nil, call.Args[0], info); ok && k == 0 {
 								c.hasDefer = true
 							}
